@@ -380,7 +380,7 @@ package commands
 // Queueing an object for the remote check touches only the queue's own state.
 //@ func (*github.com/git-lfs/git-lfs/v3/tq.TransferQueue).Add
 //@   assumed
-//@   props C05 C03 C06
+//@   props C05 C03 C06 C02
 //@   modifies fresh, map q.transfers, fields q.wait, ghost qadds[q]
 //@   ensures qadds(q) == old(qadds(q)) + 1
 // Checked although assumed (C06): an object added without error is remembered
@@ -389,6 +389,10 @@ package commands
 //@   requires @inv q != nil
 //@   at call (*tq.TransferQueue).remember:1 assert arg0__ == q && arg1__ == t && t.Name == old(name) && t.Path == old(path) && t.Oid == old(oid) && t.Size == old(size) && t.Missing == old(missing) && old(err) == nil
 //@   at send incoming assert mapval__ == t && len(objs.objects) <= 1
+// C02: a repeated oid is reported to the watchers as done only when its chain
+// has completed (the one real transfer was verified) - never on the strength
+// of a file that happens to lie at the path.
+//@   at send w assert objs.completed && len(objs.objects) > 1
 //@   at send errorc assert mapval__ == old(err) && old(err) != nil
 //@   ensures @checked old(err) != nil ==> chsent(q.errorc) == old(chsent(q.errorc)) + 1
 
